@@ -17,6 +17,8 @@ import RuxModel.Model.Rest
     group <prefix> <arg>   …   end
     controller <prefix> <arg>   …   end
     resource <rid> <kind> <base> <resname> <implmask> <usesmask> <arg>
+                                                 <kind> = ptr | val | ptrint | same  (same: Go side registers ONE controller value
+                                                 per <rid> again and again, also across `new`; for the model a registration like any other)
     notfound <arg> | notallowed <arg>
     run                                          -> ok <#routes> ;; <pfx> <#grp> <#globals>  |  panic:msg
     info <id>                                    -> route <path> <name> <methods> <handler tags>
@@ -107,7 +109,11 @@ def parseSimple (bufs : List (Nat × List H)) : List String → Option Stmt
     match rid.toNat?, Bytes.ofHex base, Bytes.ofHex res, impl.toNat?, uses.toNat?, parseArg bufs a with
     | some rid, some base, some res, some impl, some uses, some mws =>
       let k := if kind = "ptr" then some CtrlKind.ptrStruct else if kind = "val" then some .nonPtr
-               else if kind = "ptrint" then some .ptrNonStruct else none
+               else if kind = "ptrint" then some .ptrNonStruct
+               -- `same`: the harness hands the controller VALUE of an earlier `resource <rid> same` line to
+               -- Resource again (other base path / other router). Resource only reads the controller and
+               -- the map its Uses() returns: every registration is the registration of a fresh controller.
+               else if kind = "same" then some .ptrStruct else none
       k.map fun k => .resource
         { kind := k, base := base, resName := res, impl := actionsOfMask impl
           -- `Uses()` of the generated controllers: action a ↦ the single handler tagged rid + 10 + a.idx
